@@ -933,6 +933,23 @@ def _le(a, b):
 _SCALARS = (int, float, SR, SB, np.floating, np.integer, bool, np.bool_)
 
 
+class _DictView:
+    """Lets a dict of arrays (e.g. Model.interactions) take part in the mergeable heap like an object's attributes"""
+
+    def __init__(self, d):
+        self.__dict__ = d
+
+
+def _heap_objs(heap):
+    out = []
+    for obj in heap:
+        out.append(obj)
+        for k, v in list(getattr(obj, "__dict__", {}).items()):
+            if isinstance(v, dict) and v and all(isinstance(x, np.ndarray) for x in v.values()) and all(isinstance(kk, str) for kk in v):
+                out.append(_DictView(v))
+    return out
+
+
 def snapshot(heap):
     snap = []
     for obj in heap:
@@ -985,7 +1002,7 @@ def merged(fn, name=None, heap_from=None):
         ctx = Ctx.cur
         if ctx is None or ctx.in_merge or (ctx.heap is None and heap_from is None):
             return fn(*args, **kw)
-        heap = heap_from(*args, **kw) if heap_from is not None else ctx.heap
+        heap = _heap_objs(heap_from(*args, **kw) if heap_from is not None else ctx.heap)
         snap = snapshot(heap)
         outcomes = []
         raises = []
